@@ -2,7 +2,7 @@
 from .. import common as C
 from .. import engine as E
 
-THEOREMS = []
+THEOREMS = ["c01_ok_silent", "c01_linear", "c01_each_exactly_once"]
 
 
 def run(ctx, H):
